@@ -2,7 +2,9 @@
   C16, second part — what the first file (`C16.lean`) left open:
 
   1. every escape form of quoted identifiers / JSON strings (`QEsc`): raw runes, the two-character escapes,
-     `\uXXXX` in either case, surrogate pairs; lone surrogates (where the two syntaxes DIFFER);
+     `\uXXXX` in either case, surrogate pairs; lone and unpaired surrogates (where the two syntaxes DIFFER: a quoted
+     identifier is rejected — since FX28 also when a second `\u` escape follows that is no low surrogate —, a JSON
+     string reads U+FFFD);
   2. every JSON value, rendered with any whitespace policy, written between backticks evaluates to that value;
      every JSON text (RFC 8259 grammar) that is valid UTF-8 can be written between backticks;
   3. literals inside larger expressions (`{ "k" : … }`, `a . "k"`, function arguments);
@@ -57,7 +59,8 @@ theorem contQ_qesc {s w : Bytes} (h : QEsc s w) : ∀ (fuel : Nat) (acc : Bytes)
     simp only [List.length_cons] at hf
     match fuel, hf with
     | f + 1, hf =>
-      rw [contQ_pair f _ _ _ acc hi lo (hex4_ext hx _) (by simp [Json.isSurrogate]; omega) (hex4_ext hx' _),
+      rw [contQ_pair f _ _ _ acc hi lo (hex4_ext hx _) (by simp [Json.isSurrogate]; omega) (hex4_ext hx' _)
+          (utf16Decode_pair_ne g1 g2 g3 g4),
         utf16Decode_pair g1 g2 g3 g4, ih f _ (by omega)]; simp
 
 /-- Go's JSON string decoder decodes every `QEsc` writing, to the same string -/
@@ -133,7 +136,8 @@ theorem contQ_qesc_app {s w : Bytes} (h : QEsc s w) : ∀ (k : Nat) (acc tail : 
     have : (0x5C :: 0x75 :: a :: b :: c :: d :: 0x5C :: 0x75 :: a' :: b' :: c' :: d' :: w).length + k
         = (w.length + (k + 11)) + 1 := by simp only [List.length_cons]; omega
     simp only [List.cons_append]
-    rw [this, contQ_pair _ _ _ _ acc hi lo (hex4_ext hx _) (by simp [Json.isSurrogate]; omega) (hex4_ext hx' _),
+    rw [this, contQ_pair _ _ _ _ acc hi lo (hex4_ext hx _) (by simp [Json.isSurrogate]; omega) (hex4_ext hx' _)
+        (utf16Decode_pair_ne g1 g2 g3 g4),
       utf16Decode_pair g1 g2 g3 g4, e']; simp
 
 /-- the same for Go's JSON string decoder -/
@@ -475,55 +479,39 @@ example : Json.decode [0x22, 0x5C, 0x75, 0x44, 0x38, 0x30, 0x30, 0x41, 0x22] = s
   decode_lone_surrogate QEsc.nil (r := 0xD800) (by decide) (by decide)
     (QEsc.raw 0x41 (by decide) (by decide) (by decide) (by decide) QEsc.nil) (by intro x h; cases h)
 
-/-- A surrogate escape followed by a `\u` escape that does not complete it (here: an ordinary character):
-    the **quoted identifier** swallows BOTH escapes and writes one U+FFFD … -/
+/-- A surrogate escape followed by a `\u` escape with which it does not form a (high, low) pair — an ordinary
+    character, a high surrogate after a high one, anything after a low one: the **quoted identifier** is rejected
+    (Go: `invalid quoted string`), whatever precedes and whatever follows.
+    (FX28.  Before that fix `utf16.DecodeRune`'s U+FFFD was written and BOTH escapes were consumed: `"\uD800\u0041"`
+    named the member U+FFFD, the `A` was lost, and `"\uDC00\uD800"` compiled.) -/
+theorem qid_unpaired_surrogate_rejected {s w : Bytes} (h : QEsc s w) {a b c d r a' b' c' d' r2 : Nat}
+    (hx : Json.hex4 [a, b, c, d] = some (r, [])) (hs : Json.isSurrogate r = true)
+    (hx2 : Json.hex4 [a', b', c', d'] = some (r2, []))
+    (hnp : ¬ (0xD800 ≤ r ∧ r < 0xDC00 ∧ 0xDC00 ≤ r2 ∧ r2 < 0xE000)) (rest : Bytes) :
+    parseQuotedIdentifier
+        ([0x22] ++ (w ++ 0x5C :: 0x75 :: a :: b :: c :: d :: 0x5C :: 0x75 :: a' :: b' :: c' :: d' :: rest) ++ [0x22])
+      = none := by
+  rw [parseQuotedIdentifier_eq, stripDelims_wrap]
+  split
+  · rfl
+  · obtain ⟨k', hk, e⟩ := contQ_qesc_app h (13 + rest.length) []
+      (0x5C :: 0x75 :: a :: b :: c :: d :: 0x5C :: 0x75 :: a' :: b' :: c' :: d' :: rest)
+    have e1 : (w ++ 0x5C :: 0x75 :: a :: b :: c :: d :: 0x5C :: 0x75 :: a' :: b' :: c' :: d' :: rest).length + 1
+        = w.length + (13 + rest.length) := by
+      simp only [List.length_append, List.length_cons]; omega
+    rw [e1, e]
+    obtain ⟨f, rfl⟩ : ∃ f, k' = f + 1 := ⟨k' - 1, by omega⟩
+    exact contQ_unpaired f _ _ _ _ r r2 (hex4_ext hx _) hs (hex4_ext hx2 _) ((utf16Decode_eq_fffd_iff r r2).2 hnp)
+
+/-- the case of the first part of this file: a surrogate escape followed by the `\u` escape of an ordinary character.
+    (Statement changed by FX28: it used to read `= some (s ++ [0xEF, 0xBF, 0xBD] ++ s2)` — one U+FFFD for both escapes.) -/
 theorem qid_unpaired_surrogate {s w s2 w2 : Bytes} (h : QEsc s w) {a b c d r a' b' c' d' r2 : Nat}
     (hx : Json.hex4 [a, b, c, d] = some (r, [])) (hs : Json.isSurrogate r = true)
-    (hx2 : Json.hex4 [a', b', c', d'] = some (r2, [])) (hs2 : Json.isSurrogate r2 = false) (h2 : QEsc s2 w2) :
+    (hx2 : Json.hex4 [a', b', c', d'] = some (r2, [])) (hs2 : Json.isSurrogate r2 = false) (_h2 : QEsc s2 w2) :
     parseQuotedIdentifier
         ([0x22] ++ (w ++ 0x5C :: 0x75 :: a :: b :: c :: d :: 0x5C :: 0x75 :: a' :: b' :: c' :: d' :: w2) ++ [0x22])
-      = some (s ++ [0xEF, 0xBF, 0xBD] ++ s2) := by
-  rw [parseQuotedIdentifier_eq, stripDelims_wrap]
-  have hany : (w ++ 0x5C :: 0x75 :: a :: b :: c :: d :: 0x5C :: 0x75 :: a' :: b' :: c' :: d' :: w2).any (· < 0x20)
-      = false := by
-    rw [List.any_eq_false]
-    intro x hx'
-    have hb := hex4_bytes hx
-    have hb' := hex4_bytes hx2
-    simp only [List.mem_append, List.mem_cons, List.not_mem_nil, or_false] at hx' hb hb'
-    have : 0x20 ≤ x := by
-      rcases hx' with hx' | rfl | rfl | rfl | rfl | rfl | rfl | rfl | rfl | rfl | rfl | rfl | rfl | hx'
-      · exact qesc_ge h x hx'
-      · omega
-      · omega
-      · have := hb x (Or.inl rfl); omega
-      · have := hb x (Or.inr (Or.inl rfl)); omega
-      · have := hb x (Or.inr (Or.inr (Or.inl rfl))); omega
-      · have := hb x (Or.inr (Or.inr (Or.inr rfl))); omega
-      · omega
-      · omega
-      · have := hb' x (Or.inl rfl); omega
-      · have := hb' x (Or.inr (Or.inl rfl)); omega
-      · have := hb' x (Or.inr (Or.inr (Or.inl rfl))); omega
-      · have := hb' x (Or.inr (Or.inr (Or.inr rfl))); omega
-      · exact qesc_ge h2 x hx'
-    simp; omega
-  rw [hany]
-  simp only [Bool.false_eq_true, if_false]
-  obtain ⟨k', hk, e⟩ := contQ_qesc_app h (13 + w2.length) []
-    (0x5C :: 0x75 :: a :: b :: c :: d :: 0x5C :: 0x75 :: a' :: b' :: c' :: d' :: w2)
-  have e1 : (w ++ 0x5C :: 0x75 :: a :: b :: c :: d :: 0x5C :: 0x75 :: a' :: b' :: c' :: d' :: w2).length + 1
-      = w.length + (13 + w2.length) := by
-    simp only [List.length_append, List.length_cons]; omega
-  rw [e1, e]
-  obtain ⟨f, rfl⟩ : ∃ f, k' = f + 1 := ⟨k' - 1, by omega⟩
-  · have hdec : Json.utf16Decode r r2 = RuneError := by
-      unfold Json.utf16Decode
-      simp [Json.isSurrogate] at hs2
-      rw [if_neg (by omega)]
-    rw [contQ_pair f _ _ _ _ r r2 (hex4_ext hx _) hs (hex4_ext hx2 _), hdec, contQ_qesc h2 f _ (by omega)]
-    have eR : encodeRune RuneError = [0xEF, 0xBF, 0xBD] := by decide
-    simp [eR]
+      = none :=
+  qid_unpaired_surrogate_rejected h hx hs hx2 (by simp [Json.isSurrogate] at hs2; omega) w2
 
 /-- … while the **JSON decoder** writes U+FFFD for the first escape and then reads the second one normally. -/
 theorem decode_unpaired_surrogate {s w s2 w2 : Bytes} (h : QEsc s w) {a b c d r a' b' c' d' r2 : Nat}
@@ -555,11 +543,21 @@ theorem decode_unpaired_surrogate {s w s2 w2 : Bytes} (h : QEsc s w) {a b c d r 
     have eR : encodeRune RuneError = [0xEF, 0xBF, 0xBD] := by decide
     simp [eR]
 
-/-- `"\uD800\u0041"`: the member selected is the one named U+FFFD (the `A` is lost), whereas the JSON literal
+/-- `"\uD800\u0041"` is rejected (regression example for FX28: it used to name the member U+FFFD, the `A` was lost),
+    and so are `"\uDC00\uD800"` (low, then high; it used to be one U+FFFD) and `"\uD800\uD800"`; whereas the JSON literal
     `` `"\uD800\u0041"` `` is the two-character string U+FFFD `A`.  The Go code does exactly this. -/
 example : parseQuotedIdentifier [0x22, 0x5C, 0x75, 0x44, 0x38, 0x30, 0x30, 0x5C, 0x75, 0x30, 0x30, 0x34, 0x31, 0x22]
-    = some [0xEF, 0xBF, 0xBD] :=
+    = none :=
   qid_unpaired_surrogate QEsc.nil (r := 0xD800) (r2 := 0x41) (by decide) (by decide) (by decide) (by decide) QEsc.nil
+example : parseQuotedIdentifier [0x22, 0x5C, 0x75, 0x44, 0x43, 0x30, 0x30, 0x5C, 0x75, 0x44, 0x38, 0x30, 0x30, 0x22]
+    = none :=
+  qid_unpaired_surrogate_rejected QEsc.nil (r := 0xDC00) (r2 := 0xD800) (by decide) (by decide) (by decide) (by omega) []
+example : parseQuotedIdentifier [0x22, 0x5C, 0x75, 0x44, 0x38, 0x30, 0x30, 0x5C, 0x75, 0x44, 0x38, 0x30, 0x30, 0x22]
+    = none :=
+  qid_unpaired_surrogate_rejected QEsc.nil (r := 0xD800) (r2 := 0xD800) (by decide) (by decide) (by decide) (by omega) []
+/-- the hypothesis `hnp` cannot be dropped: a genuine pair is accepted -/
+example : parseQuotedIdentifier [0x22, 0x5C, 0x75, 0x44, 0x38, 0x30, 0x30, 0x5C, 0x75, 0x44, 0x43, 0x30, 0x30, 0x22]
+    = some [0xF0, 0x90, 0x80, 0x80] := by decide
 example : Json.decode [0x22, 0x5C, 0x75, 0x44, 0x38, 0x30, 0x30, 0x5C, 0x75, 0x30, 0x30, 0x34, 0x31, 0x22]
     = some (.str [0xEF, 0xBF, 0xBD, 0x41]) :=
   decode_unpaired_surrogate QEsc.nil (r := 0xD800) (r2 := 0x41) (by decide) (by decide) (by decide) (by decide) QEsc.nil
@@ -595,19 +593,33 @@ theorem json_lone_surrogate_search {s w s2 w2 : Bytes} (h : QEsc s w) {a b c d r
       = .ok (.str (s ++ [0xEF, 0xBF, 0xBD] ++ s2)) :=
   json_literal_roundtrip _ _ doc (jbody_lone h hx h2) (decode_lone_surrogate h hx hs h2 hn)
 
-/-- a surrogate escape followed by an ordinary `\u` escape: the quoted identifier names the member
-    `s ++ U+FFFD ++ s2` (the second escape is lost) … -/
+/-- a surrogate escape followed by a `\u` escape with which it forms no (high, low) pair: the quoted identifier is a
+    syntax error (FX28), on every document … -/
+theorem qid_unpaired_surrogate_rejected_search {s w s2 w2 : Bytes} (h : QEsc s w) {a b c d r a' b' c' d' r2 : Nat}
+    (hx : Json.hex4 [a, b, c, d] = some (r, [])) (hs : Json.isSurrogate r = true)
+    (hx2 : Json.hex4 [a', b', c', d'] = some (r2, []))
+    (hnp : ¬ (0xD800 ≤ r ∧ r < 0xDC00 ∧ 0xDC00 ≤ r2 ∧ r2 < 0xE000)) (h2 : QEsc s2 w2) (doc : Val) :
+    search ([0x22] ++ (w ++ 0x5C :: 0x75 :: a :: b :: c :: d :: 0x5C :: 0x75 :: a' :: b' :: c' :: d' :: w2) ++ [0x22])
+        doc
+      = .err [.syntax] := by
+  have hb : Body 0x22 (w ++ 0x5C :: 0x75 :: a :: b :: c :: d :: 0x5C :: 0x75 :: a' :: b' :: c' :: d' :: w2) :=
+    Body.append (body_qesc h) (Body.esc1 0x75 (by omega) (body_hex4 (Or.inl rfl) hx
+      (Body.esc1 0x75 (by omega) (body_hex4 (Or.inl rfl) hx2 (body_qesc h2)))))
+  exact search_quoted_invalid _ _ doc
+    (lexAll_single 0x22 _ (by omega) (by decide) _ (lexToken_quoted hb))
+    (qid_unpaired_surrogate_rejected h hx hs hx2 hnp w2)
+
+/-- a surrogate escape followed by an ordinary `\u` escape: the quoted identifier is a syntax error …
+    (Statement changed by FX28: it used to read `search … (.obj kvs) = .ok ((objLookup (s ++ U+FFFD ++ s2) kvs).getD .null)`
+    — the member `s ++ U+FFFD ++ s2` was selected, the second escape was lost.) -/
 theorem qid_unpaired_surrogate_search {s w s2 w2 : Bytes} (h : QEsc s w) {a b c d r a' b' c' d' r2 : Nat}
     (hx : Json.hex4 [a, b, c, d] = some (r, [])) (hs : Json.isSurrogate r = true)
     (hx2 : Json.hex4 [a', b', c', d'] = some (r2, [])) (hs2 : Json.isSurrogate r2 = false) (h2 : QEsc s2 w2)
-    (kvs : List (Bytes × Val)) :
+    (doc : Val) :
     search ([0x22] ++ (w ++ 0x5C :: 0x75 :: a :: b :: c :: d :: 0x5C :: 0x75 :: a' :: b' :: c' :: d' :: w2) ++ [0x22])
-        (.obj kvs)
-      = .ok ((objLookup (s ++ [0xEF, 0xBF, 0xBD] ++ s2) kvs).getD .null) := by
-  have := search_single _ _ _ (.obj kvs)
-    (lexAll_single 0x22 _ (by omega) (by decide) _ (lexToken_quoted (body_lone h hx (QEsc.uni a' b' c' d' r2 hx2 hs2 h2))))
-    (fun f => prim_quoted f _ _ (qid_unpaired_surrogate h hx hs hx2 hs2 h2))
-  exact this.trans rfl
+        doc
+      = .err [.syntax] :=
+  qid_unpaired_surrogate_rejected_search h hx hs hx2 (by simp [Json.isSurrogate] at hs2; omega) h2 doc
 
 /-- … the JSON literal with the same text is the string `s ++ U+FFFD ++ <the second character> ++ s2` -/
 theorem json_unpaired_surrogate_search {s w s2 w2 : Bytes} (h : QEsc s w) {a b c d r a' b' c' d' r2 : Nat}
@@ -620,11 +632,16 @@ theorem json_unpaired_surrogate_search {s w s2 w2 : Bytes} (h : QEsc s w) {a b c
   json_literal_roundtrip _ _ doc (jbody_lone h hx (QEsc.uni a' b' c' d' r2 hx2 hs2 h2))
     (decode_unpaired_surrogate h hx hs hx2 hs2 h2)
 
-/-- `"\uD800\u0041"` on `{"\uFFFD": true, "\uFFFDA": false}` is `true`; `` `"\uD800\u0041"` `` is `"\uFFFDA"` -/
+/-- `"\uD800\u0041"` on `{"\uFFFD": true, "\uFFFDA": false}` is a syntax error (regression example for FX28: it used to
+    be `true`), and so is `"\uDC00\uD800"` (it used to select the member named U+FFFD); `` `"\uD800\u0041"` `` is `"\uFFFDA"` -/
 example : search [0x22, 0x5C, 0x75, 0x44, 0x38, 0x30, 0x30, 0x5C, 0x75, 0x30, 0x30, 0x34, 0x31, 0x22]
-    (.obj [([0xEF, 0xBF, 0xBD], .bool true), ([0xEF, 0xBF, 0xBD, 0x41], .bool false)]) = .ok (.bool true) :=
+    (.obj [([0xEF, 0xBF, 0xBD], .bool true), ([0xEF, 0xBF, 0xBD, 0x41], .bool false)]) = .err [.syntax] :=
   qid_unpaired_surrogate_search QEsc.nil (r := 0xD800) (r2 := 0x41) (by decide) (by decide) (by decide) (by decide)
     QEsc.nil _
+example : search [0x22, 0x5C, 0x75, 0x44, 0x43, 0x30, 0x30, 0x5C, 0x75, 0x44, 0x38, 0x30, 0x30, 0x22]
+    (.obj [([0xEF, 0xBF, 0xBD], .bool true)]) = .err [.syntax] :=
+  qid_unpaired_surrogate_rejected_search QEsc.nil (r := 0xDC00) (r2 := 0xD800) (by decide) (by decide) (by decide)
+    (by omega) QEsc.nil _
 example : search (jsonLit [0x22, 0x5C, 0x75, 0x44, 0x38, 0x30, 0x30, 0x5C, 0x75, 0x30, 0x30, 0x34, 0x31, 0x22]) .null
     = .ok (.str [0xEF, 0xBF, 0xBD, 0x41]) :=
   json_unpaired_surrogate_search QEsc.nil (r := 0xD800) (r2 := 0x41) (by decide) (by decide) (by decide) (by decide)
